@@ -89,6 +89,8 @@ class Builder:
             return ','.join('{}:{}'.format(a, b) for a, b in zip(xn, names))
         if spelling == 'tuple-of-strings':
             return tuple('{}:{}'.format(a, b) for a, b in zip(xn, names))
+        if spelling == 'list-of-strings':
+            return ['{}:{}'.format(a, b) for a, b in zip(xn, names)]
         if spelling == 'list-of-pairs':
             return [(a, b) for a, b in zip(xn, names)]
         if spelling in ('dict-argument-values', 'dict-array-values'):
